@@ -84,6 +84,37 @@ def load_and_run(src, libs, wd):
             return ("ok", proj, "run:" + type(e).__name__)
 
 
+def _r(name, col):
+    return ["", "READ", [["InFileName", ["str", "rel_exists"]], ["InFieldName", ["str", "colb" if col == "b" else "word"]]]]
+
+
+def _v3r(name, col):
+    return [name, "EEMSRead", [["InFileName", ["str", "rel_exists"]], ["InFieldName", ["str", "colb" if col == "b" else "word"]]]]
+
+
+def _fz(v2, src, new):
+    args = [["InFieldName", ["ref", src]], ["TrueThreshold", ["int", "other"]], ["FalseThreshold", ["int", "bit"]]]
+    return (["", "CVTTOFUZZY", args + [["NewFieldName", ["ref", new]]]] if v2 else [new, "CvtToFuzzy", args])
+
+
+def _op(v2, legacy, target, ins, new, extra=()):
+    args = [["InFieldNames", ["list", [["ref", i] for i in ins]]]] + [list(e) for e in extra]
+    return (["", legacy, args + [["NewFieldName", ["ref", new]], ["OutFileName", ["str", "rel_missing"]]]] if v2 else [new, target, args])
+
+
+def _full(legacy, target, extra=()):
+    v2 = [_r("a", "a"), _r("b", "b"), _fz(True, "a", "fa"), _fz(True, "b", "fb"), _op(True, legacy, target, ["fa", "fb"], "out", extra),
+          ["", "NOT", [["InFieldName", ["ref", "out"]], ["NewFieldName", ["ref", "neg"]]]]]
+    v3 = [_v3r("a", "a"), _v3r("b", "b"), _fz(False, "a", "fa"), _fz(False, "b", "fb"), _op(False, legacy, target, ["fa", "fb"], "out", extra),
+          ["neg", "FuzzyNot", [["InFieldName", ["ref", "out"]]]]]
+    return v2, v3
+
+
+FULL_MODELS = [_full("OR", "FuzzyOr"), _full("XOR", "FuzzyXOr"), _full("UNION", "FuzzyUnion"),
+               _full("WTDUNION", "FuzzyWeightedUnion", (["Weights", ["list", [["int", "other"], ["float"]]]],)),
+               _full("SELECTEDUNION", "FuzzySelectedUnion", (["TruestOrFalsest", ["str", "word"]], ["NumberToConsider", ["int", "other"]]))]
+
+
 def check_C16(tier):
     chk = core.Check("C16", tier)
     d, dl, table = prepare()
@@ -142,6 +173,22 @@ def check_C16(tier):
             img = ["ok", [[n if n is not None else "", cname, [an for an, _ in args]] for n, _, cname, args in a[1]]]
         else:
             img = ["err", a[1]]
+        records.append({"id": ci, "v2": v2, "img": img, "same": bool(same)})
+        info[ci] = (src2, src3, a, b)
+    # whole EEMS 2.0 models (several legacy commands wired through field names), with their MPilot image written by hand
+    for v2, image in FULL_MODELS:
+        ci = len(records)
+        src2, _ = V.render(v2, ci % 6)
+        src3, _ = V.render(image, ci % 6)
+        wd = os.path.join(root, "w%d" % ci)
+        V.make_fixture(wd, False)
+        a = load_and_run(src2, decl.CSV_LIBS, wd)
+        shutil.rmtree(wd, ignore_errors=True)
+        V.make_fixture(wd, False)
+        b = load_and_run(src3, decl.CSV_LIBS, wd)
+        shutil.rmtree(wd, ignore_errors=True)
+        same = json.dumps(a, default=str, sort_keys=True) == json.dumps(b, default=str, sort_keys=True) and a[0] == "ok" and not isinstance(a[2], str)
+        img = ["ok", [[n if n is not None else "", cname, [an for an, _ in args]] for n, _, cname, args in a[1]]] if a[0] == "ok" else ["err", a[1]]
         records.append({"id": ci, "v2": v2, "img": img, "same": bool(same)})
         info[ci] = (src2, src3, a, b)
     chk.cov["evaluations"] += 2 * len(records)
